@@ -32,6 +32,9 @@ Qed.
 
 Section SamePeer.
   Variables (sh : shuffles) (p sn : string) (c0 : cat) (hs : hsnap) (stored : list inst).
+  (* the calls already logged when this update starts (the exported-service-list handler runs
+     several deletions in a row) *)
+  Variable ops0 : list op.
   Hypothesis sh_ok : shuffles_ok sh.
   Hypothesis wf0 : wf c0.
   Hypothesis Hcsn : check_service_nodes c0 p sn = Ok stored.
@@ -44,7 +47,7 @@ Section SamePeer.
   Hypothesis Hids_s : forall z, In z (svcs c0) -> s_peer z = p -> s_id z <> "".
   Hypothesis Hids_k : forall k, In k (chks c0) -> c_peer k = p -> c_id k <> "".
 
-  Let s0 := HSt c0 [] None.
+  Let s0 := HSt c0 ops0 None.
   Let s1 := fold_left (fun s x => node_block sh stored x s) (sh_nodes sh hs) s0.
   Let s' := phase2 sh p hs stored s1.
   Hypothesis Herr : h_err s' = None.
@@ -280,13 +283,13 @@ Section SamePeerTop.
     assert (Zslot' : forall x y, In x hs -> In y (ns_svcs x) -> svc_key (ss_svc y) <> svc_key z).
     { intros x y Hx Hy. destruct (rp_in _ _ R x y Hx Hy) as (i & Hi & _ & E2 & _). rewrite E2. apply Zslot. exact Hi. }
     split; [|split].
-    - eapply (other_svc_kept sh p sn c0 hs stored); eauto using sp_Hid0, sp_Hid1.
+    - eapply (other_svc_kept sh p sn c0 hs stored []); eauto using sp_Hid0, sp_Hid1.
     - intros b Hb Bp Bn Hnot.
-      eapply (other_node_kept sh p sn c0 hs stored) with (z := z); eauto using sp_Hid0, sp_Hid1.
+      eapply (other_node_kept sh p sn c0 hs stored []) with (z := z); eauto using sp_Hid0, sp_Hid1.
       intros x Hx. destruct (sp_some_svc x Hx) as (y & Hy). destruct (rp_in _ _ R x y Hx Hy) as (i & Hi & E1 & _).
       rewrite E1. apply Hnot. exact Hi.
     - intros k Hk Kp Kn Ks Hnot.
-      eapply (other_chk_kept sh p sn c0 hs stored) with (z := z); eauto using sp_Hid0, sp_Hid1.
+      eapply (other_chk_kept sh p sn c0 hs stored []) with (z := z); eauto using sp_Hid0, sp_Hid1.
       intros x y k' Hx Hy Hk'. destruct (rp_in _ _ R x y Hx Hy) as (i & Hi & _ & _ & E3). rewrite E3 in Hk'.
       apply (Hnot i k' Hi Hk').
   Qed.
@@ -307,7 +310,7 @@ Section SamePeerTop.
     cbn zeta in *. fold hs in He |- *.
     pose proof (top_hs_wf p sn export C) as Hhs. pose proof (top_coh p sn export C) as Hcoh.
     destruct H4 as [Hids_s Hids_k].
-    eapply (uninvolved_kept sh p sn c0 hs stored); eauto using sp_Hid0, sp_Hid1.
+    eapply (uninvolved_kept sh p sn c0 hs stored []); eauto using sp_Hid0, sp_Hid1.
     intros x Hx. destruct (sp_some_svc x Hx) as (y & Hy). destruct (rp_in _ _ R x y Hx Hy) as (i & Hi & E1 & _).
     rewrite E1. apply Nsnap. exact Hi.
   Qed.
